@@ -13,7 +13,7 @@ search:  forward n / backward n round trips on the real code: JANUS exact bits (
          conditions snapped to the grid by a dt=0 step), the other symmetric schemes to a
          calibrated bound plus a dt-halving discriminator.
 """
-import ctypes, math, os, sys
+import ctypes, json, math, os, sys
 sys.path.insert(0, os.path.dirname(os.path.abspath(__file__)))
 from common import *
 import extract_c10
@@ -27,14 +27,16 @@ WH_COORDS = ["jacobi", "democraticheliocentric", "whds", "barycentric"]
 
 
 # ----------------------------------------------------------------------------- generators
-def gen_planetary(rng, n, calm=False):
+def gen_planetary(rng, n, calm=False, moderate=False):
     """star + n-1 bodies on nested orbits (heliocentric construction, arbitrary frame offset).
-    calm=True: well separated, low mass, low e (non-chaotic regime for the rounding-level schemes)."""
+    calm=True: well separated, low mass, low e (non-chaotic regime for the rounding-level schemes);
+    moderate=True: the same spacing with giant-planet masses (the interaction and jump terms are
+    large enough for an asymmetry in them to show within a few hundred steps)."""
     G = 1.0
     parts = [[1.0, 0.0, 0.0, 0.0, 0.0, 0.0, 0.0]]
     a = rng.uniform(0.7, 1.3)
     for i in range(1, n):
-        m = rng.loguniform(1e-9, 1e-5) if calm else rng.loguniform(1e-8, 3e-2)
+        m = rng.loguniform(1e-4, 2e-3) if moderate else (rng.loguniform(1e-9, 1e-5) if calm else rng.loguniform(1e-8, 3e-2))
         e = rng.uniform(0, 0.05) if calm else rng.uniform(0, 0.4)
         inc = rng.uniform(0, 0.05) if calm else rng.uniform(0, 0.5)
         ph = rng.uniform(0, 2 * math.pi)
@@ -198,11 +200,15 @@ def run(c):
     ]
     c.cov["rule"] = ("correspondence: random N-body systems (planetary with masses 1e-8..3e-2, e<0.4, frame offsets; clouds of comparable masses), N 2..8, "
                      "all 5 JANUS orders, scale_pos/scale_vel from {1e-16..1e-7, 2^-40} independently, dt>0 and dt<0 segments, state compared after every step; "
-                     "search: forward n / backward n round trips on the real code, n up to 1e3 (quick) / 1e4 (thorough); a JANUS case is non-trivial when the "
-                     "forward leg moved every particle off its initial grid point; distinct_nontrivial = distinct (integrator variant, order/type, N, scale class, n class)")
+                     "LEAPFROG and SEI (shearing-sheet particles, OMEGA/OMEGAZ/G varied) likewise after every step; "
+                     "search: forward n / backward n round trips on the real code, n up to 1e3 (quick) / 1e4 (thorough): JANUS on planetary systems and clouds, exact bits after "
+                     "snapping with a dt=0 step; LEAPFROG, WHFast x4 coordinates, 10 uncorrected SABA types, 10 unprocessed EOS combinations on well separated systems with "
+                     "low (1e-9..1e-5) and giant-planet (1e-4..2e-3) masses, SEI on sheets; a case is non-trivial when the forward leg moved every particle off its initial "
+                     "grid point (JANUS) / moved the state by more than 1e-3 relative (others); distinct_nontrivial = distinct (integrator variant, order/type, N, scales, n decade, dt sign)")
 
     corr_janus(c, R, exe)
     corr_leapfrog(c, R, exe)
+    corr_sei(c, R, exe)
     corr_laws(c, exe)
     search_janus(c, R)
     search_symmetric(c, R)
@@ -345,6 +351,61 @@ def janus_tolerant(c, exe, expect, meta):
     return None
 
 
+def float_tie(c, exe, name, lines, expect, meta, relinker):
+    """bitwise comparison of the per-step records of a Float model with the implementation; when it
+    fails, single steps from the implementation's own states must agree to 64 N ulp of the largest
+    coordinate ("to rounding error": a harmless re-association must not fire, a wrong constant must).
+    relinker(mt, state_doubles, dt) -> driver line for one step from that state."""
+    got = run_driver(exe, lines)
+    ndis, ncmp, first = 0, 0, None
+    for g, e, mt in zip(got, expect, meta):
+        grecs = [r.strip() for r in g.split("|")]
+        if grecs != e:
+            ndis += 1
+            first = first or dict(mt, model=g[:200], impl=" | ".join(e)[:200])
+        ncmp += len(e)
+    c.cov[name + "_records_compared"] = ncmp
+    c.cov[name + "_tie"] = "bitwise"
+    if len(got) != len(lines):
+        c.corr_break("drv_c10 returned %d lines for %d %s ops" % (len(got), len(lines), name))
+        return
+    if not ndis:
+        return
+    l2, w2, i2 = [], [], []
+    for e, mt in zip(expect, meta):
+        dts = [dt for dt, k in mt["segs"] for _ in range(k)]
+        for j in range(len(e) - 1):
+            st = [h2d(t) for t in e[j].split()]
+            l2.append(relinker(mt, st, dts[j]))
+            w2.append([h2d(t) for t in e[j + 1].split()])
+            i2.append((mt, j))
+    g2 = run_driver(exe, l2)
+    bad = None
+    for g, w, (mt, j) in zip(g2, w2, i2):
+        n = mt["N"]
+        try:
+            gv = [h2d(t) for t in g.split("|")[-1].split()]
+        except ValueError:
+            gv = []
+        if len(gv) != 6 * n:
+            bad = dict(N=n, step=j, why=g[:80])
+            break
+        for cls in (0, 3):
+            idx = [6 * i + cls + k for i in range(n) for k in range(3)]
+            sc = max(abs(w[i]) for i in idx) or 1.0
+            if any(not abs(gv[i] - w[i]) <= 64 * n * 2.3e-16 * sc for i in idx):
+                bad = dict(N=n, step=j, dt=mt["dt"], model=[gv[i] for i in idx][:6], impl=[w[i] for i in idx][:6])
+                break
+        if bad:
+            break
+    if bad is None:
+        c.cov[name + "_tie"] = "single steps agree to 64 N ulp, not bitwise (%d of %d runs differ bitwise)" % (ndis, len(lines))
+        c.log("%s tie: not bitwise, single steps agree to 64 N ulp" % name)
+    else:
+        c.corr_break("%s model and implementation differ on %d of %d runs, single steps beyond 64 N ulp" % (name.upper(), ndis, len(lines)),
+                     dict(first or {}, single_step=bad))
+
+
 def corr_leapfrog(c, R, exe):
     rng = c.rng.fork()
     ncase = 60 if c.thorough else 15
@@ -357,49 +418,72 @@ def corr_leapfrog(c, R, exe):
         segs = [(dt, nf), (-dt, nf)]
         lines.append(leapfrog_line(G, 1, segs, parts))
         expect.append(real_leapfrog_records(R, G, 1, segs, parts))
-        meta.append(dict(N=n, dt=dt, G=G, parts=parts, nf=nf))
+        meta.append(dict(N=n, dt=dt, G=G, parts=parts, nf=nf, segs=segs))
         c.count(("corr-leapfrog", n, dt < 0), n=2 * nf)
-    got = run_driver(exe, lines)
-    ndis, ncmp, first = 0, 0, None
-    for g, e, mt in zip(got, expect, meta):
-        grecs = [r.strip() for r in g.split("|")]
-        if grecs != e:
-            ndis += 1
-            first = first or dict(mt, model=g[:200], impl=" | ".join(e)[:200])
-        ncmp += len(e)
-    c.cov["leapfrog_records_compared"] = ncmp
-    c.cov["leapfrog_tie"] = "bitwise"
-    if len(got) != len(lines):
-        c.corr_break("drv_c10 returned %d lines for %d leapfrog ops" % (len(got), len(lines)))
-    elif ndis:
-        # "to rounding error" part of the property: tolerate re-association (64 N ulp per single step)
-        l2, w2, i2 = [], [], []
-        for e, mt in zip(expect, meta):
-            dts = [mt["dt"]] * mt["nf"] + [-mt["dt"]] * mt["nf"]
-            for j in range(len(e) - 1):
-                st = [h2d(t) for t in e[j].split()]
-                parts = [[mt["parts"][i][0]] + st[6 * i:6 * i + 6] for i in range(mt["N"])]
-                l2.append(leapfrog_line(mt["G"], 1, [(dts[j], 1)], parts))
-                w2.append([h2d(t) for t in e[j + 1].split()])
-                i2.append((mt, j))
-        g2 = run_driver(exe, l2)
-        bad = None
-        for g, w, (mt, j) in zip(g2, w2, i2):
-            n = mt["N"]
-            gv = [h2d(t) for t in g.split("|")[-1].split()]
-            if len(gv) != 6 * n:
-                bad = dict(N=n, step=j, why=g[:80]); break
-            for cls in (0, 3):
-                idx = [6 * i + cls + k for i in range(n) for k in range(3)]
-                sc = max(abs(w[i]) for i in idx) or 1.0
-                if any(not abs(gv[i] - w[i]) <= 64 * n * 2.3e-16 * sc for i in idx):
-                    bad = dict(N=n, step=j, dt=mt["dt"], model=[gv[i] for i in idx][:6], impl=[w[i] for i in idx][:6]); break
-            if bad:
-                break
-        if bad is None:
-            c.cov["leapfrog_tie"] = "single steps agree to 64 N ulp, not bitwise (%d of %d runs differ bitwise)" % (ndis, len(lines))
-        else:
-            c.corr_break("LEAPFROG model and implementation differ on %d of %d runs, single steps beyond 64 N ulp" % (ndis, len(lines)), dict(first or {}, single_step=bad))
+
+    def relink(mt, st, dt):
+        parts = [[mt["parts"][i][0]] + st[6 * i:6 * i + 6] for i in range(mt["N"])]
+        return leapfrog_line(mt["G"], 1, [(dt, 1)], parts)
+    float_tie(c, exe, "leapfrog", lines, expect, meta, relink)
+
+
+def sei_line(om, omz, G, every, segs, parts):
+    t = ["sei", d2h(om), d2h(omz), d2h(G), d2h(0.0), str(every), str(len(segs))]
+    for dt, n in segs:
+        t += [d2h(dt), str(n)]
+    t.append(str(len(parts)))
+    for p in parts:
+        t += [d2h(v) for v in p]
+    return " ".join(t)
+
+
+def gen_sheet(rng, n):
+    om = rng.choice([1.0, 0.5, 2.0 * math.pi])
+    omz = om * rng.uniform(0.8, 1.3) if rng.chance(0.5) else om
+    G = rng.choice([0.0, 1e-6, 1e-4])
+    parts = [[rng.loguniform(1e-4, 1e-2)] + [rng.uniform(-5, 5), rng.uniform(-5, 5), rng.uniform(-0.5, 0.5)] + [rng.normal() * 0.2 * om for _ in range(3)]
+             for i in range(n)]
+    return om, omz, G, parts
+
+
+def sei_sim(R, om, omz, G, parts):
+    s = R.rb.Simulation()
+    s.integrator = "sei"
+    s.ri_sei.OMEGA = om
+    if omz != om:
+        s.ri_sei.OMEGAZ = omz       # otherwise leave the default -1 (= use OMEGA)
+    s.G = G
+    for p in parts:
+        s.add(m=p[0], x=p[1], y=p[2], z=p[3], vx=p[4], vy=p[5], vz=p[6])
+    return s
+
+
+def corr_sei(c, R, exe):
+    rng = c.rng.fork()
+    ncase = 60 if c.thorough else 15
+    lines, expect, meta = [], [], []
+    for case in range(ncase):
+        n = rng.randint(1, 8)
+        om, omz, G, parts = gen_sheet(rng, n)
+        dt = (2 * math.pi / om) / rng.choice([20, 50, 200]) * (1 if rng.chance(0.6) else -1)
+        nf = rng.randint(3, 40)
+        segs = [(dt, nf), (-dt, nf)]
+        lines.append(sei_line(om, omz, G, 1, segs, parts))
+        s = sei_sim(R, om, omz, G, parts)
+        recs = [" ".join(d2h(v) for v in R.doubles(s))]
+        for sdt, k in segs:
+            s.dt = sdt
+            for _ in range(k):
+                s.step()
+                recs.append(" ".join(d2h(v) for v in R.doubles(s)))
+        expect.append(recs)
+        meta.append(dict(N=n, dt=dt, G=G, parts=parts, OMEGA=om, OMEGAZ=omz, segs=segs))
+        c.count(("corr-sei", n, om, omz != om, dt < 0), n=2 * nf)
+
+    def relink(mt, st, dt):
+        parts = [[mt["parts"][i][0]] + st[6 * i:6 * i + 6] for i in range(mt["N"])]
+        return sei_line(mt["OMEGA"], mt["OMEGAZ"], mt["G"], 1, [(dt, 1)], parts)
+    float_tie(c, exe, "sei", lines, expect, meta, relink)
 
 
 def corr_laws(c, exe):
@@ -438,7 +522,7 @@ def corr_laws(c, exe):
             ok = t[8] == "%016x" % ((-int(a)) & MASK) and h2d(t[9]) == float(int(a))
         elif ok:
             ok = t[8] == "err"
-        c.count(("laws", k % 6) if False else None, nontrivial=False)
+        c.count(None, nontrivial=False)
         if not ok:
             nbad += 1
             firstbad = firstbad or dict(a=d2h(a), b=d2h(b), got=g)
@@ -531,7 +615,12 @@ def relerr(a, b, n):
     return e if e == e else float("inf")
 
 
-TOL = 1e-10
+def tol_for(nst):
+    """calibrated on the clean tree: the rounding error of a forward/backward round trip grows like
+    n^1.5 … n^2 (along-track / shear drift of a rounding-level offset): worst seen 3e-11 at n=1e3 and
+    9e-9 at n=1e4 (SEI), 7e-10 at n=1e4 (EOS)."""
+    return 3e-10 * max(1.0, (nst / 1000.0) ** 2)
+
 
 
 def configure(s, variant):
@@ -577,39 +666,53 @@ def search_symmetric(c, R):
     for a in EOS_UNPROCESSED:
         variants.append(("eos", a, "lf", 2))
     variants += [("eos", "lf4", "lf4", 1), ("eos", "lf", "lf8_6_4", 3), ("eos", "lf8", "lf6", 2), ("eos", "lf4_2", "lf4_2", 1)]
-    reps = 6 if c.thorough else 2
+    reps = 8 if c.thorough else 4
     nmax = 10000 if c.thorough else 1000
     worst = {}
+    worst_fam = {}
     disc = 0
     for rep in range(reps):
         for variant in variants:
-            n = rng.randint(2, 8)
-            G, parts = gen_planetary(rng, n, calm=True)
+            moderate = rep % 2 == 1
+            n = rng.randint(2, 6) if moderate else rng.randint(2, 8)
+            G, parts = gen_planetary(rng, n, calm=True, moderate=moderate)
             P = inner_period(G, parts)
             dt = P / rng.choice([20, 40, 100]) * (1 if rng.chance(0.7) else -1)
-            nst = rng.choice([50, 200, 500, nmax]) if rep % 2 == 0 else rng.randint(20, nmax)
+            nst = rng.randint(50, 300) if moderate else rng.choice([50, 200, 500, nmax, rng.randint(20, nmax)])
             d0, d1, d2 = roundtrip(R, G, parts, variant, dt, nst)
             e = relerr(d0, d2, n)
             travelled = relerr(d0, d1, n)
             name = "-".join(str(v) for v in variant)
             worst[name] = max(worst.get(name, 0.0), e)
+            fam = "moderate" if moderate else "calm"
+            worst_fam[fam] = max(worst_fam.get(fam, 0.0), e)
             c.count((name, n, min(3, int(math.log10(nst)))), nontrivial=travelled > 1e-3)
             rep_d = dict(integrator=variant[0], variant=list(variant), G=G, dt=dt, nsteps=nst, particles=parts, error=e,
                          procedure="add particles; configure; (move_to_com); nsteps; synchronize; sim.dt=-sim.dt; nsteps; synchronize; relative max-norm difference to the start")
+            TOL = tol_for(nst)
             if not e <= TOL:
                 c.violation("%s-roundtrip" % name, "%s: %d steps forward and back return to the start only to %.2e (bound %.0e)" % (name, nst, e, TOL), rep_d)
-            elif e > 2e-13:
-                # dt-halving discriminator: the reversal defect of a non-symmetric scheme is a power of dt,
-                # rounding is not.  Same time span with dt/2 and dt/4.
+            elif e > 20 * nst ** 1.5 * 1.1e-16:
+                # dt-halving discriminator, for errors above the rounding level expected for this n
+                # (calibration: clean-tree errors stay below 4 n^1.5 eps) but below the bound: the reversal
+                # defect of a non-symmetric scheme is a power of dt, rounding is not.  Same time span with
+                # dt/2 and dt/4; a hit must repeat on a perturbed copy of the system (rounding noise does not).
                 disc += 1
-                e2 = relerr(*[roundtrip(R, G, parts, variant, dt / 2, 2 * nst)[i] for i in (0, 2)], n)
-                e4 = relerr(*[roundtrip(R, G, parts, variant, dt / 4, 4 * nst)[i] for i in (0, 2)], n)
-                if e > 1.7 * e2 and e2 > 1.7 * e4 and e > 5 * e4:
-                    c.violation("%s-roundtrip-dt-scaling" % name,
-                                "%s: reversal error falls with the step like a truncation error (dt %.2e, dt/2 %.2e, dt/4 %.2e), not like rounding" % (name, e, e2, e4),
-                                dict(rep_d, error_dt2=e2, error_dt4=e4))
+
+                def scaling(pp):
+                    es = [relerr(*[roundtrip(R, G, pp, variant, dt / k, k * nst)[i] for i in (0, 2)], n) for k in (1, 2, 4)]
+                    return es, (es[0] > 1.7 * es[1] and es[1] > 1.7 * es[2] and es[0] > 5 * es[2])
+                es, hit = scaling(parts)
+                if hit:
+                    parts2 = [[p[0]] + [v * (1 + 1e-9 * (i + 1)) for v in p[1:]] for i, p in enumerate(parts)]
+                    es2, hit2 = scaling(parts2)
+                    if hit2 and es2[0] > 20 * nst ** 1.5 * 1.1e-16:
+                        c.violation("%s-roundtrip-dt-scaling" % name,
+                                    "%s: reversal error falls with the step like a truncation error (dt %.2e, dt/2 %.2e, dt/4 %.2e), not like rounding" % (name, es[0], es[1], es[2]),
+                                    dict(rep_d, errors_dt_dt2_dt4=es, errors_perturbed_copy=es2))
     search_sei(c, R, rng, worst)
     c.cov["worst_roundtrip_error_by_scheme"] = {k: float("%.3g" % v) for k, v in sorted(worst.items())}
+    c.cov["worst_roundtrip_error_by_family"] = {k: float("%.3g" % v) for k, v in sorted(worst_fam.items())}
     c.cov["dt_halving_discriminator_runs"] = disc
 
 
@@ -618,18 +721,8 @@ def search_sei(c, R, rng, worst):
     nmax = 10000 if c.thorough else 1000
     for rep in range(reps):
         n = rng.randint(2, 8)
-        s = R.rb.Simulation()
-        s.integrator = "sei"
-        om = rng.choice([1.0, 0.5, 2.0 * math.pi])
-        s.ri_sei.OMEGA = om
-        if rng.chance(0.5):
-            s.ri_sei.OMEGAZ = om * rng.uniform(0.8, 1.3)
-        s.G = rng.choice([0.0, 1e-6, 1e-4])
-        parts = []
-        for i in range(n):
-            p = [rng.loguniform(1e-4, 1e-2)] + [rng.uniform(-5, 5), rng.uniform(-5, 5), rng.uniform(-0.5, 0.5)] + [rng.normal() * 0.2 * om for _ in range(3)]
-            parts.append(p)
-            s.add(m=p[0], x=p[1], y=p[2], z=p[3], vx=p[4], vy=p[5], vz=p[6])
+        om, omz, G, parts = gen_sheet(rng, n)
+        s = sei_sim(R, om, omz, G, parts)
         dt = (2 * math.pi / om) / rng.choice([20, 50, 200]) * (1 if rng.chance(0.7) else -1)
         nst = rng.choice([50, 200, nmax])
         d0 = R.doubles(s)
@@ -641,10 +734,53 @@ def search_sei(c, R, rng, worst):
         e = relerr(d0, R.doubles(s), n)
         worst["sei"] = max(worst.get("sei", 0.0), e)
         c.count(("sei", n, om, min(3, int(math.log10(nst)))), nontrivial=relerr(d0, d1, n) > 1e-3)
+        TOL = tol_for(nst)
         if not e <= TOL:
             c.violation("sei-roundtrip", "SEI: %d steps forward and back return to the start only to %.2e (bound %.0e)" % (nst, e, TOL),
-                        dict(integrator="sei", OMEGA=om, OMEGAZ=s.ri_sei.OMEGAZ, G=s.G, dt=dt, nsteps=nst, particles=parts, error=e))
+                        dict(integrator="sei", OMEGA=om, OMEGAZ=omz, G=G, dt=dt, nsteps=nst, particles=parts, error=e))
+
+
+def replay(path):
+    """./check C10 --replay replays/C10-….json : re-run a recorded failing input on the current tree"""
+    rp = json.load(open(path))["replay"]
+    d = build()
+    R = Real(use_scratch_rebound(d))
+    parts, G, dt, nst = rp["particles"], rp.get("G", 1.0), rp["dt"], rp["nsteps"]
+    if rp["integrator"] == "janus":
+        s = R.sim(G, parts, "janus")
+        s.ri_janus.order = rp["order"]
+        s.ri_janus.scale_pos = rp["scale_pos"]
+        s.ri_janus.scale_vel = rp["scale_vel"]
+        s.dt = 0.0
+        s.step()
+        i0, d0 = R.ints(s), [d2h(v) for v in R.doubles(s)]
+        s.dt = dt
+        s.steps(nst)
+        s.dt = -s.dt
+        s.steps(nst)
+        ok = R.ints(s) == i0 and [d2h(v) for v in R.doubles(s)] == d0
+        print("JANUS order %d, %d steps there and back: %s" % (rp["order"], nst, "exact" if ok else "NOT exact"))
+    elif rp["integrator"] == "sei":
+        s = sei_sim(R, rp["OMEGA"], rp["OMEGAZ"], G, parts)
+        d0 = R.doubles(s)
+        s.dt = dt
+        s.steps(nst)
+        s.dt = -s.dt
+        s.steps(nst)
+        e = relerr(d0, R.doubles(s), len(parts))
+        ok = e <= tol_for(nst)
+        print("SEI %d steps there and back: error %.3e (bound %.1e)" % (nst, e, tol_for(nst)))
+    else:
+        variant = tuple(rp["variant"])
+        es = [relerr(*[roundtrip(R, G, parts, variant, dt / k, k * nst)[i] for i in (0, 2)], len(parts)) for k in (1, 2, 4)]
+        ok = es[0] <= tol_for(nst) and not (es[0] > 20 * nst ** 1.5 * 1.1e-16 and es[0] > 1.7 * es[1] and es[1] > 1.7 * es[2] and es[0] > 5 * es[2])
+        print("%s %d steps there and back: error %.3e (bound %.1e); with dt/2, dt/4: %.3e %.3e" % ("-".join(map(str, variant)), nst, es[0], tol_for(nst), es[1], es[2]))
+    print("replay:", "property holds on this input" if ok else "STILL FAILING")
+    sys.stdout.flush()
+    os._exit(0 if ok else 1)
 
 
 if __name__ == "__main__":
+    if "--replay" in sys.argv:
+        replay(sys.argv[sys.argv.index("--replay") + 1])
     main("C10", run)
